@@ -169,6 +169,9 @@ def loop_runs() -> Any:
             for j, (k, delta, naive, add_at) in enumerate(shots):
                 poll_start = base if k == 0 else m0 + k * MIN
                 ents.append({"id": f"o{si}_{j}", "t_off_us": poll_start + delta - base, "naive": naive, "add_at": min(add_at, k), "remove_at": None})
+            if d["dup"] and ents:
+                # a second schedule of its own id with the same task, time and arguments as the first (scheduled twice): both are sent on time
+                ents.append({**ents[0], "id": ents[0]["id"] + "d", "tag": ents[0]["id"]})
             if si == 0 and d["bulk"]:
                 # a big batch of one-shots that become due within the same minute (a campaign scheduled in one go): each is still sent at its own T
                 n, gap = d["bulk"]
@@ -184,6 +187,7 @@ def loop_runs() -> Any:
         "base": st.integers(clock.to_us(dtm.datetime(2024, 1, 1, tzinfo=clock.UTC)), clock.to_us(dtm.datetime(2026, 1, 1, tzinfo=clock.UTC))),
         "bsec": st.sampled_from([0, 12, 30, 57, 59]), "bus": st.sampled_from([0, 1, 500_000, 999_999]),
         "sources": st.lists(st.tuples(st.sampled_from([0.0, 0.0, 0.4, 1.0, 2.5, 3.3]), st.lists(shot, min_size=1, max_size=3)), min_size=1, max_size=2),
+        "dup": st.sampled_from([False, False, True]),
         "bulk": st.sampled_from([None] * 9 + [(40, SEC), (150, 300_000), (260, 200_000), (400, 0)]),
     }).map(fin)
 
@@ -206,20 +210,36 @@ def run_loop_case(case: Dict[str, Any]) -> Outcome:
     in_flight = False
     for T in target.values():
         in_flight = in_flight or any(starts[j] < T <= evals[j] for j in range(n_pass))
+    want_n: Dict[str, int] = {}
+    first_seen: set = set()
+    for s_ in case["sources"]:
+        for e in s_["entries"]:
+            want_n[e.get("tag", e["id"])] = want_n.get(e.get("tag", e["id"]), 0) + 1
     for k in res["kicks"]:
         T = target.get(k["tag"])
         if T is None:
             continue
-        desc = f"one-shot {k['tag']} T={clock.from_us(T).isoformat()} sent at T{(k['t'] - T) / 1e6:+.6f} s; listings completed at " \
+        desc = (f"[{want_n[k['tag']]} schedules with distinct ids share this task, time and arguments] " if want_n.get(k["tag"], 1) > 1 else "") + f"one-shot {k['tag']} T={clock.from_us(T).isoformat()} sent at T{(k['t'] - T) / 1e6:+.6f} s; listings completed at " \
                f"{[clock.from_us(e).time().isoformat() for e in evals]} (latencies {[s['list_latency'] for s in case['sources']]})"
         if k["t"] < T - 2:
             out.add("C14.c", desc + ": EARLY")
         elif k["t"] >= T + SEC and not any(abs(k["t"] - e) <= 2 for e in evals):
             out.add("C14.c", desc + ": a second or more late although it was not sent straight from an evaluation")
+        elif k["sid"] not in first_seen:
+            first_seen.add(k["sid"])        # (a repeated send of the same id - stale listing of a slow source - is C15's subject, not a late send)
+            # per schedule id: the first completed listing that contained it and whose look-ahead window reaches T fixes the deadline
+            dl = None
+            for sname, pl in res["polls"].items():
+                for j, p_ in enumerate(pl[:n_pass]):
+                    if k["sid"] in p_["listed"] and T <= (evals[j] + MIN) // MIN * MIN + SEC:
+                        cand = max(T, evals[j]) + SEC
+                        dl = cand if dl is None else min(dl, cand)
+            if dl is not None and k["t"] >= dl + 2:
+                out.add("C14.c", desc + f": schedule id {k['sid']} was listed in time, yet sent {(k['t'] - dl) / 1e6 + 1:.3f} s after max(T, listing)")
     out.nontrivial = in_flight
     out.classes = ["loop"] + (["due_while_listing_in_flight"] if in_flight else []) + \
                   (["slow_source"] if any(s["list_latency"] for s in case["sources"]) else []) + \
-                  (["bulk_batch_over_100"] if sum(len(s["entries"]) for s in case["sources"]) > 100 else [])
+                  (["duplicate_schedules"] if any(v > 1 for v in want_n.values()) else []) + (["bulk_batch_over_100"] if sum(len(s["entries"]) for s in case["sources"]) > 100 else [])
     out.trace = {"kicks": [[k["tag"], k["t"] - base] for k in res["kicks"]], "evals": [e - base for e in evals]}
     return out
 
